@@ -211,6 +211,33 @@ Definition Known_move_local (w : world) (o : op) : bool :=
 Definition Known10 (w : world) (o : op) : bool :=
   Known_add_foreign w o || Known_root_last w o || Known_move_local w o.
 
+(* remove_file of a file that is in the model's list but whose own model link names another model: Element::
+   remove_from_file answers InvalidFile, the error is swallowed, the list has already lost the file.  Not reachable
+   through the API (create_file / load_buffer register a file in the model it refers to); excluded, not a finding. *)
+Definition Unowned (w : world) (o : op) : bool :=
+  match o with
+  | OpRemoveFile m f =>
+    match model_b w m, nth_opt (w_files w) (N.to_nat f) with
+    | Some x, Some fl => set_mem f (m_files x) && negb (f_model fl =? m)
+    | _, _ => false
+    end
+  | _ => false
+  end.
+
+(* remove_file of the LAST file of a model *)
+Definition last_file (w : world) (o : op) : bool :=
+  match o with
+  | OpRemoveFile m f =>
+    match model_b w m with
+    | Some x => match index_of (N.eqb f) (m_files x) with
+                | Some pos => is_empty (swap_remove_at (m_files x) pos)
+                | None => false
+                end
+    | None => false
+    end
+  | _ => false
+  end.
+
 (* remove_file is exact unless a SHORT-NAME of a named element carries its own set: it cannot be deleted
    (ShortNameRemovalForbidden is swallowed), its set is reset and it joins the remaining files of its parent *)
 Definition short_local (w : world) (x : model) : bool :=
